@@ -89,12 +89,13 @@ def r2_r3(ctx, cfg, R2="C16.R2", R3="C16.R3"):
     cf = cfg_of(f)
     # factor sites
     n = 0
-    # (a) validator total
-    mf = [(b, t) for b, t in f.calls() if t["callee"]["key"].endswith("Uint128::mul_floor")]
+    # (a) validator total: the mul_floor whose result is stored as the new total
+    mf_all = [(b, t) for b, t in f.calls() if t["callee"]["key"].endswith("Uint128::mul_floor")]
+    mf = [(b, t) for b, t in mf_all if contains(P.call_args(f, t, b)[0], lambda x: x[0] == "field" and x[2] == "stake")]
     ok = len(mf) == 1
     if ok:
         a = P.call_args(f, mf[0][1], mf[0][0])
-        ok = contains(a[0], lambda x: x[0] == "field" and x[2] == "stake") and _is_factor(a[1])
+        ok = _is_factor(a[1])
         n += 1
         # and the product is what is stored as the new total
         svv0 = store_calls(P, f, VINFO, ("save",))
@@ -116,10 +117,6 @@ def r2_r3(ctx, cfg, R2="C16.R2", R3="C16.R3"):
         ck = use[2]["callee"]["key"]
         if ck == "cw_storage_plus::Map::update":
             staker_cl = (g, use)
-        elif ck == "std::iter::Iterator::for_each":
-            queue_cl = (g, use)
-        elif ck == "std::iter::Iterator::filter":
-            filt_cl = (g, use)
     ok = staker_cl is not None
     d = "no STAKES.update closure"
     if ok:
@@ -137,27 +134,48 @@ def r2_r3(ctx, cfg, R2="C16.R2", R3="C16.R3"):
         ua = P.call_args(use[0], use[2], use[1])
         ok = ok and peel(ua[0]) == STAKES
     ctx.ob(R2, key, "each-stake*=(1-p), rewards untouched", ok, "staker update is %s" % d, fn=f, sample=d)
-    # (c) queue entries of that validator
-    ok = queue_cl is not None and filt_cl is not None
-    d = "no filter/for_each over the unbonding queue"
+    # (c) queue entries of that validator.  Form-agnostic: `queue.iter_mut().filter(p).for_each(|ub| ..)` and
+    # `for ub in queue.iter_mut() { if p(ub) { .. } }` are the same loop after normalisation (vlib/inline.py A9,
+    # q.conditions_at): the write site, its value, the element it goes to and the conditions it runs under.
+    def is_queue_elem(o):
+        o = peel(o)
+        return o[0] == "bound" and o[1] == "elem" and contains(o[2], lambda x: x[0] == "call" and x[1] == "cw_storage_plus::Item::may_load" and peel(x[2][0]) == QUEUE)
+
+    ws = [(b, i, st) for b, i, st in f.stmts() if st["k"] == "assign" and st["dst"]["p"] and st["dst"]["p"][-1]["k"] == "field" and st["dst"]["p"][-1].get("of", "").startswith("staking::Unbonding")]
+    d = "no write to a queue entry"
+    ok = [st["dst"]["p"][-1]["name"] for b, i, st in ws] == ["amount"]
+    okf = False
+    fd = "?"
     if ok:
-        g, use = queue_cl
-        mfq = [(b, t) for b, t in g.calls() if t["callee"]["key"].endswith("Uint128::mul_floor")]
-        ok = len(mfq) == 1
+        wb, wi, wst = ws[0]
+        tgt = P.local(f, wst["dst"]["l"], (wb, wi))
+        val = peel(P.rvalue(f, wst["rv"], (wb, wi)))
+        d = "%s.amount = %s" % (fmt(tgt)[:40], fmt(val)[:90])
+        ok = is_queue_elem(tgt) and val[0] == "call" and val[1].endswith("Uint128::mul_floor") and _is_factor(val[2][1]) and \
+            peel(val[2][0])[0] == "field" and peel(val[2][0])[2] == "amount" and same_origin(peel(val[2][0])[1], tgt)
         if ok:
-            a = P.call_args(g, mfq[0][1], mfq[0][0])
-            d = "ub.amount = %s.mul_floor(%s)" % (fmt(a[0])[:40], fmt(a[1])[:60])
-            ok = contains(a[0], lambda x: x[0] == "field" and x[2] == "amount") and _is_factor(a[1])
-            ws = [(b, i, st) for b, i, st in g.stmts() if st["k"] == "assign" and st["dst"]["p"] and st["dst"]["p"][-1]["k"] == "field" and st["dst"]["p"][-1].get("of", "").startswith("staking::Unbonding")]
-            ok = ok and [st["dst"]["p"][-1]["name"] for b, i, st in ws] == ["amount"]
             n += 1
-        fg, fuse = filt_cl
-        pred, args, pol = q.norm_cond(P.ret(fg), True)
-        okf = pred == "eq" and pol is True and any(contains(x, lambda y: y[0] == "field" and y[2] == "validator") for x in args) and any(is_param(x, "validator") for x in args)
-        ctx.ob(R3, key, "only-unbondings-of-that-validator", okf, "queue filter is %s %s" % (pred, [fmt(x)[:40] for x in args]), fn=fg, sample="filter(|ub| ub.validator == validator)")
-        # for_each consumes the filtered iterator over the loaded queue, which is then saved
-        src = P.call_args(use[0], use[2], use[1])[0]
-        ok = ok and contains(src, lambda x: x[0] == "call" and x[1] == "std::iter::Iterator::filter") and contains(src, lambda x: x[0] == "call" and x[1] == "cw_storage_plus::Item::may_load")
+        # conditions on the element under which the write runs: exactly `ub.validator == validator`
+        ec = []
+        for e, c in q.conditions_at(P, F, f, wb):
+            if c[0] == "bool" and any(contains(x, lambda y: y[0] == "bound" and y[1] == "elem") for x in c[1][1]):
+                ec.append(c[1])
+        fd = [(p, [fmt(x)[:40] for x in a], pol) for p, a, pol in ec]
+        okf = len(ec) == 1 and ec[0][0] == "eq" and ec[0][2] is True and \
+            any(peel(x)[0] == "field" and peel(x)[2] == "validator" and is_queue_elem(peel(x)[1]) for x in ec[0][1]) and any(is_param(x, "validator") for x in ec[0][1])
+        # the loop visits the whole queue (no skipping adapter)
+        from rules.C01 import DENY_ADAPTERS
+        loops = q.enclosing_loops(P, f, wb)
+        bad = []
+        for nb, src in loops:
+            o = peel(src)
+            while o[0] == "call" and o[2]:
+                nm = o[1].rsplit("::", 1)[-1]
+                if nm in DENY_ADAPTERS and nm != "filter":
+                    bad.append(nm)
+                o = peel(o[2][0])
+        ok = ok and len(loops) == 1 and not bad
+    ctx.ob(R3, key, "only-unbondings-of-that-validator", okf, "the queue entry is slashed under %s" % (fd,), fn=f, sample="ub.validator == validator")
     ctx.ob(R2, key, "pending-unbondings=floor(amount*(1-p))", ok, "queue update is %s" % d, fn=f, sample=d)
     ctx.ob(R2, key, "one-factor-three-sites", n == 3, "the factor (1 - percentage) is applied at %d sites, expected 3" % n, fn=f, sample="3")
     sv = store_calls(P, f, QUEUE, ("save",))
